@@ -270,7 +270,7 @@ def correspondence(ctx, gen_ok, ho_ok=True):
         sub_cases.append((f'({cnat(nt)}, {cnats(s)})', f'({cNs(ind)}, {cnats(np.asarray(sd["s"]))})', ('sub', name, kk)))
     # to_dict / from_dict at the level of the tag dictionaries
     def cstr(x):
-        assert x.isidentifier()
+        assert '"' not in x and x.isascii()
         return f'"{x}"%string'
     for k in range(ctx.n(12, 40)):
         m = rand_mesh1(FIRST[k % 4], rng, size=[2, 2] if k % 4 < 2 else [2, 2, 2])
@@ -399,8 +399,41 @@ def one_roundtrip(ctx, m, fmt, rng, codec_ok):
         ctx.fail(key, msg, {'mesh': mesh_json(m), 'format': fmt, 'difference': [what, detail]})
 
 
+def empty_tags_then_restrict(ctx, rng):
+    """an empty named boundary / subdomain must survive dict and JSON as an index array: restrict afterwards works"""
+    import skfem
+    from skfem.io.json import from_file, to_file
+    for name in FIRST:
+        m = rand_mesh1(name, rng, integer=True)
+        m = m.with_boundaries({'none': np.array([], dtype=np.int32), 'some': m.boundary_facets()[:2]}) \
+             .with_subdomains({'void': np.array([], dtype=np.int32)})
+        for fmt in ('dict', 'json'):
+            try:
+                if fmt == 'dict':
+                    M = type(m).from_dict(m.to_dict())
+                else:
+                    with tempfile.TemporaryDirectory(prefix='c17_') as d:
+                        to_file(m, os.path.join(d, 'm.json'))
+                        M = from_file(os.path.join(d, 'm.json'))
+                kinds = {k: np.asarray(v).dtype.kind for k, v in list(M.boundaries.items()) + list(M.subdomains.items())}
+                if any(k not in 'iu' for k in kinds.values()):
+                    ctx.fail(f'tag-dtype:{fmt}:{name}', f'{fmt} round trip turns an empty tag into a non-integer array '
+                             f'({kinds})', {'mesh': mesh_json(m), 'format': fmt})
+                R = M.restrict(np.arange(max(1, M.t.shape[1] // 2)))
+                if sorted(R.boundaries) != ['none', 'some'] or len(R.boundaries['none']) != 0:
+                    ctx.fail(f'restrict-after:{fmt}:{name}', 'restrict after a round trip loses the empty tag',
+                             {'mesh': mesh_json(m), 'format': fmt})
+            except Exception as e:                        # noqa: BLE001
+                import traceback
+                ctx.fail(f'exception:restrict-after-{fmt}:{name}', f'restrict after a {fmt} round trip of a {name} with an '
+                         f'empty tag raises {type(e).__name__}: {e}',
+                         {'mesh': mesh_json(m), 'format': fmt, 'traceback': traceback.format_exc()[-1200:]})
+            ctx.count(('empty-tags', fmt, name), nontrivial=True)
+
+
 def oracle(ctx):
     rng = np_seed(ctx, 71)
+    empty_tags_then_restrict(ctx, rng)
     fmts = ['meshio', 'gmsh22', 'gmsh41', 'vtk', 'vtu', 'npz', 'dict', 'json', 'vtu-ascii']
     if not ctx.quick():
         fmts.append('vtk-ascii')
